@@ -231,7 +231,7 @@ impl CdnBootstrap {
     pub fn merge_with_fallback(mut self, fallback: Self) -> Self {
         let fallback_priority_offset =
             if let Some(max_priority) = self.servers.iter().map(|s| s.priority).max() {
-                max_priority + 100
+                max_priority.saturating_add(100)
             } else {
                 1000
             };
@@ -243,7 +243,7 @@ impl CdnBootstrap {
                 continue;
             }
 
-            server.priority += fallback_priority_offset;
+            server.priority = server.priority.saturating_add(fallback_priority_offset);
             self.servers.push(server);
         }
 
